@@ -388,6 +388,12 @@ def run(ctx):
     ctx.assumptions.append("check_bundles_compatible and resolve_bundleref_type are abstracted (assumed contracts: Valid "
                            "only for compatible bundle types); check_instance's loops over the port dictionary are "
                            "decided by the fault family")
+    for key, obs, info in ck.orphanage_loop_obligations():
+        for u in info.get("unsupported", []):
+            ctx.unsupported.append((key, u))
+        if len(obs) < 3 and not info.get("unsupported"):
+            ctx.checker_errors.append(f"only {len(obs)} loop obligations for {key}")
+        ctx.discharge(obs, key + " [every member / every connection is checked]", info)
     ck.pass_list_obligations(ctx)
     from contracts import c_portrefs
     ctx.verify(c_portrefs.engine(), [c_portrefs.VERIFY[1]])
